@@ -200,3 +200,14 @@ Example pfaf_example :
   fst (subbasins_pfafstetter ds [0%nat] (seq 0 9) (main_upstream ds upa 0) upa None 1) = [1; 3; 2; 5; 4; 2; 2; 7; 6] /\
   fst (subbasins_pfafstetter ds [0%nat] (seq 0 9) (main_upstream ds upa 0) upa None 2) = [11; 31; 21; 51; 41; 23; 22; 71; 61].
 Proof. vm_compute. split; reflexivity. Qed.
+
+(* basins.subbasins_pfafstetter (with _tributaries) regenerated from the source (generated/GenSeg.v; np.argsort(-x) is the model's
+   stable descending sort, a documented modelling decision) IS the model the Pfafstetter theorems above are about *)
+From PF Require Import GenSegPfafEq.
+From PFG Require Import GenSeg.
+Theorem gen_subbasins_pfafstetter_eq : forall ds pits sq main uparea mask depth, topo ds sq -> complete ds sq ->
+  (forall x, (nth x main (length ds) < length ds)%nat -> dsf ds (nth x main (length ds)) = x /\ nth x main (length ds) <> x) ->
+  (length pits <= 2 * length ds + 8)%nat ->
+  gen_subbasins_pfafstetter pits ds sq main uparea mask depth = Some (subbasins_pfafstetter ds pits sq main uparea mask depth).
+Proof. exact GenSegPfafEq.gen_subbasins_pfafstetter_eq. Qed.
+Print Assumptions gen_subbasins_pfafstetter_eq.
